@@ -308,10 +308,21 @@ func RunWith(t *testing.T, c Case, st *Stores) *Result {
 			return i, ok
 		}
 		wireSeen := 0
+		// respLive: the requests the responder listed at the end of the last completed step, plus those whose
+		// New request reached it since; liveAtSend remembers it for every message the responder sends
+		respLive := map[int]bool{}
+		liveAtSend := map[int]map[int]bool{}
 		noteWire := func() {
 			mu.Lock()
 			for _, e := range w.Net.SentSince(wireSeen) {
 				wireSeen++
+				if e.From == scen.RespID {
+					cp := map[int]bool{}
+					for k := range respLive {
+						cp[k] = true
+					}
+					liveAtSend[e.Seq] = cp
+				}
 				res.Events = append(res.Events, Event{K: "wire", Seq: e.Seq, From: string(e.From), Info: sim.DescribeMsg(e.Msg)})
 			}
 			mu.Unlock()
@@ -491,9 +502,12 @@ func RunWith(t *testing.T, c Case, st *Stores) *Result {
 					continue
 				}
 				if m := sentFor[l.c]; len(m) > 0 && !m[l.i] {
+					// the known class: withheld because a request STILL IN PROGRESS at the responder, in the same
+					// scope, was sent the bytes (a request the responder had retired before it built this message
+					// is no reason to withhold anything)
 					sameScope := false
 					for j := range m {
-						if c.Reqs[j].DedupKey == c.Reqs[l.i].DedupKey {
+						if c.Reqs[j].DedupKey == c.Reqs[l.i].DedupKey && (liveAtSend[e.Seq] == nil || liveAtSend[e.Seq][j]) {
 							sameScope = true
 						}
 					}
@@ -516,6 +530,16 @@ func RunWith(t *testing.T, c Case, st *Stores) *Result {
 			}
 		}
 		w.OnDeliver = func(e *sim.Envelope) {
+			if e.To == scen.RespID {
+				noteWire() // (what the responder sent before this arrives was built without it)
+				for _, q := range e.Msg.Requests() {
+					if i, ok := getID(q.ID()); ok && q.Type() == graphsync.RequestTypeNew {
+						mu.Lock()
+						respLive[i] = true
+						mu.Unlock()
+					}
+				}
+			}
 			checkRerequest(e)
 			checkDedup(e)
 			noteWire()
@@ -590,6 +614,20 @@ func RunWith(t *testing.T, c Case, st *Stores) *Result {
 					s.HeldResp++
 				}
 			}
+			var liveNow []int
+			for id := range sp.RequestStates {
+				if i, ok := getID(id); ok {
+					liveNow = append(liveNow, i)
+				}
+			}
+			mu.Lock()
+			for k := range respLive {
+				delete(respLive, k)
+			}
+			for _, i := range liveNow {
+				respLive[i] = true
+			}
+			mu.Unlock()
 			res.Snapshots = append(res.Snapshots, s)
 			if n := len(s.ReqActive); n > res.MaxRunReq {
 				res.MaxRunReq = n
